@@ -351,7 +351,7 @@ func init() {
 	vfRegister(&vfeng.Check{
 		ID:    "C16",
 		Level: "model_checking",
-		Rule:  "stateless model checking of the real handlers under a controlled cooperative scheduler (vsched): for every unordered pair (incl. twins) of 19 request kinds that save or delete a profile, consume a one-time value or touch a shared map (thorough: also triples {Disable|Delete} x saver x saver and one-time triples), all interleavings at shim-lock and storage-operation (LoadUserProfile/SaveUserProfile/DeleteUserProfile/...) granularity with at most 2 preemptions (thorough 3) are executed on fresh instances; per execution: vector-clock analysis of the probed RuntimeState fields (localAuthData, vipPushCookie, pendingOauth2, totpLocalRateLimit, signer fields), deadlock/hang detection, and comparison of (responses, upgraded cookies, final token state) with the outcomes of all sequential orders of the same handlers",
+		Rule:  "stateless model checking of the real handlers under a controlled cooperative scheduler (vsched): for every unordered pair (incl. twins) of 19 request kinds that save or delete a profile, consume a one-time value or touch a shared map (thorough: also triples {Disable|Delete} x saver x saver and one-time triples), all interleavings at shim-lock and storage-operation (LoadUserProfile/SaveUserProfile/DeleteUserProfile/...) granularity with at most 2 preemptions (thorough 3) are executed on fresh instances; per execution: vector-clock analysis of the probed RuntimeState fields (localAuthData, vipPushCookie, pendingOauth2, totpLocalRateLimit, signer fields), deadlock/hang detection, and comparison of (responses, upgraded cookies, final token state) with the outcomes of all sequential orders of the same handlers; plus two unseal injections racing each other and a reader of the CA material on a sealed instance (signer fields race-free, one acknowledged transition)",
 		Assumptions: []string{"preemption happens only at scheduling points: shim Lock, entry and exit of storage operations, spawn, thread end; critical sections of real mutexes (metrics, limiter, admin cache) are atomic at this granularity", "a non-serialisable outcome is a violation only when an acknowledged disable/delete is not in effect at the end or one one-time value is honoured twice; other lost updates are counted in the evidence", "races on fields without probes are left to the Go race detector (not part of this verdict)"},
 		Bounds: func(tier string) map[string]interface{} {
 			b := 2
@@ -401,11 +401,57 @@ func init() {
 					c.Inexhaustive(fmt.Sprintf("execution cap reached for %v", names))
 				}
 			}
+			// the signer state is shared in-memory state too: two unseal injections
+			// racing each other and the routes that read the CA material (the C09
+			// schedule driver, judged here for races and for being honoured once)
+			for ui, combo := range [][]string{{"inject-correct", "inject-correct", "x509ca"}, {"inject-correct", "inject-correct", "certgen"}, {"inject-correct", "inject-correct", "jwks"}} {
+				if !c.Mine(len(combos) + ui) {
+					continue
+				}
+				var outsLast []c09Out
+				var wLast *vfWorld
+				st := vsched.Explore(bound, 20000, func(prefix []int) *vsched.Exec {
+					ex, outs, w := c09RunSchedule(combo, prefix)
+					outsLast, wLast = outs, w
+					return ex
+				}, func(ex *vsched.Exec) {
+					c.Eval(1)
+					keys, whats, class := c09JudgeSchedule(combo, ex, outsLast, wLast)
+					wLast.Close()
+					for k := range keys {
+						c.Violate(strings.Replace(keys[k], "C09|", "C16|unseal|", 1), whats[k], c16Point{Actions: append([]string{"unseal"}, combo...), Choices: ex.Choices})
+					}
+					if class != "" && len(keys) == 0 {
+						c.Class("unseal|"+class, c16Point{Actions: append([]string{"unseal"}, combo...), Choices: ex.Choices})
+					}
+					if ex.Diverged != "" {
+						c.Res.HarnessErr = "schedule replay diverged: " + ex.Diverged
+					}
+				})
+				c.Res.States += int64(st.Executions)
+				c.Res.Transitions += int64(st.Decisions)
+				c.Res.Traces += int64(st.Executions)
+				if st.Capped {
+					c.Inexhaustive(fmt.Sprintf("execution cap reached for %v", combo))
+				}
+			}
 		},
 		Replay: func(c *vfeng.Ctx, raw json.RawMessage) (bool, string) {
 			var p c16Point
 			if err := json.Unmarshal(raw, &p); err != nil {
 				return false, err.Error()
+			}
+			if len(p.Actions) > 0 && p.Actions[0] == "unseal" {
+				ex, outs, w := c09RunSchedule(p.Actions[1:], p.Choices)
+				defer w.Close()
+				if ex.Diverged != "" {
+					return false, "diverged: " + ex.Diverged
+				}
+				keys, whats, _ := c09JudgeSchedule(p.Actions[1:], ex, outs, w)
+				if len(keys) > 0 {
+					return true, strings.Replace(keys[0], "C09|", "C16|unseal|", 1) + " :: " + whats[0]
+				}
+				return false, "schedule replayed without violation"
 			}
 			acts := c16ActionsByName(p.Actions)
 			ref := c16Sequential(acts)
